@@ -258,9 +258,14 @@ def container(cls, objs, form=0):
     """A container of the given shapes, filled in one of the documented ways ("The input can be a single geometry, a list of
     geometry objects or a geometry container object"; "Addition operator, e.g. mcrv1 + mcrv2, also works")."""
     objs = list(objs)
-    form = form % 6
+    form = form % 7
     if form == 0:
         return cls(*objs)
+    if form == 6:
+        # a single list of geometries handed to the constructor; the caller then re-uses its list for something else
+        c = cls(objs)
+        objs.clear()
+        return c
     c = cls()
     if form == 1:
         for o in objs:
